@@ -261,7 +261,12 @@ Fixpoint py_scan (s : text) (inlit : bool) (acc : text) : rd :=
         | [] => RdErr
         | e :: r1 =>
           if e =? 10 then py_scan r1 true acc                     (* backslash-newline: ignored *)
-          else if (e =? 13) || (e =? 0) then RdErr
+          else if e =? 13 then                                    (* CR and CR LF are newlines too *)
+            match r1 with
+            | d :: r2 => if d =? 10 then py_scan r2 true acc else py_scan r1 true acc
+            | [] => py_scan r1 true acc
+            end
+          else if e =? 0 then RdErr
           else match common_escape e with
           | Some v => py_scan r1 true (v :: acc)
           | None =>
@@ -317,7 +322,14 @@ Fixpoint c_splice (s : text) : text :=
   | c :: r =>
     if c =? 92 then
       match r with
-      | d :: r1 => if d =? 10 then c_splice r1 else c :: c_splice r
+      | d :: r1 =>
+        if d =? 10 then c_splice r1
+        else if d =? 13 then                                      (* gcc: CR and CR LF end a line too *)
+          match r1 with
+          | d2 :: r2 => if d2 =? 10 then c_splice r2 else c_splice r1
+          | [] => []
+          end
+        else c :: c_splice r
       | [] => [c]
       end
     else c :: c_splice r
@@ -354,7 +366,7 @@ Fixpoint c_scan (fuel : nat) (s : text) (inlit : bool) (acc : text) : rd :=
           | None =>
             if e =? 39 then c_scan f r1 true (39 :: acc)
             else if e =? 63 then c_scan f r1 true (63 :: acc)       (* \? *)
-            else if e =? 101 then c_scan f r1 true (27 :: acc)      (* \e, GNU *)
+            else if (e =? 101) || (e =? 69) then c_scan f r1 true (27 :: acc)   (* \e and \E, GNU *)
             else if is_oct e then
               match r1 with
               | d2 :: r2 =>
